@@ -46,6 +46,14 @@ func randMapOrder(r *Rand) *MapOrder {
 }
 
 func randSched(r *Rand) *SchedSpec {
+	s := randSchedBase(r)
+	if s.Strategy != "serial" {
+		s.LockP = r.PickF(0, 0, 0.3, 0.7)
+	}
+	return s
+}
+
+func randSchedBase(r *Rand) *SchedSpec {
 	switch r.Intn(6) {
 	case 0:
 		return &SchedSpec{Strategy: "serial", Seed: r.Uint64() >> 16}
@@ -260,10 +268,40 @@ func genC08(p *Plan, tier string) {
 		return raw(b), m
 	}
 	mo := randMapOrder(r)
+	// P: the same seed with only the first k enabled entries, executed before A (after A in the
+	// variant order): whether a position fires must not depend on how many biases follow it, nor on
+	// which request with the same seed the process answered earlier
+	{
+		var en []int
+		for i, x := range list {
+			if !x.meta.Disabled {
+				en = append(en, i)
+			}
+		}
+		if len(en) >= 2 {
+			k := r.Range(1, len(en)-1)
+			reqP, metaP := build(list[:en[k]])
+			p.Ops = append(p.Ops, &Op{Kind: "http", ID: "P", Req: reqP, MapOrder: mo, Expect: &Expect{C08: metaP}})
+		}
+	}
 	// A: the request itself
 	reqA, metaA := build(list)
 	a := &Op{Kind: "http", ID: "A", Req: reqA, MapOrder: mo, Expect: &Expect{C08: metaA}}
 	p.Ops = append(p.Ops, a)
+	if len(p.Ops) == 2 {
+		// the prefix request once more, after A: byte-identical to its first execution, and its
+		// positions fire exactly as the same positions of A
+		first := p.Ops[0]
+		metaP := *first.Expect.C08
+		pos := 0
+		for _, e := range metaP.Entries {
+			if !e.Disabled {
+				metaP.FiresLike = append(metaP.FiresLike, FireRel{Pos: pos, Other: "A", OtherPos: pos})
+				pos++
+			}
+		}
+		p.Ops = append(p.Ops, &Op{Kind: "http", ID: "Pchk", Req: first.Req, MapOrder: mo, Expect: &Expect{C08: &metaP, SameAs: "P"}})
+	}
 	var enabledIdx []int
 	for i, x := range list {
 		if !x.meta.Disabled {
@@ -512,6 +550,9 @@ func genC10(p *Plan, tier string) {
 	// that differs from the solo one is then a matter of interference, not of iteration order
 	order := randMapOrder(r)
 	k := r.Range(2, 4)
+	if tier == "thorough" && r.Bool(0.3) {
+		k = r.Range(4, 6)
+	}
 	type item struct {
 		body []byte
 		get  bool
@@ -549,6 +590,9 @@ func genC10(p *Plan, tier string) {
 	}
 	solo()
 	groups := r.Range(1, 2)
+	if tier == "thorough" {
+		groups = r.Range(1, 4)
+	}
 	for gi := 0; gi < groups; gi++ {
 		grp := &Op{Kind: "group", ID: fmt.Sprintf("grp%d", gi), MapOrder: order, Sched: randSched(r)}
 		for i, it := range items {
@@ -680,4 +724,84 @@ func genC20(p *Plan, tier string) {
 		p.Ops = append(p.Ops, op)
 	}
 	p.Ops = append(p.Ops, &Op{Kind: "http", ID: "schema", Method: "GET", Path: "/api/preferenceFunctions", NoBody: true, Expect: &Expect{Schema: true, SameAs: "schema-ref"}})
+}
+
+// Variant returns the same operations in another legal order (every
+// operation still comes after the operations its expectations refer to; ids
+// and bodies are unchanged; frequency operations are dropped). The cross pass
+// executes variants: an operation's response must not depend on what the
+// process executed before it, so its digest must be the same in both orders.
+func Variant(p *Plan) *Plan {
+	c := clonePlan(p)
+	n := len(c.Ops)
+	index := map[string]int{}
+	for i, op := range c.Ops {
+		index[op.ID] = i
+	}
+	deps := make([][]int, n)
+	addDep := func(i int, id string) {
+		if j, ok := index[id]; ok && id != "" && j != i {
+			deps[i] = append(deps[i], j)
+		}
+	}
+	var collect func(i int, op *Op)
+	collect = func(i int, op *Op) {
+		addDep(i, op.Resubmit)
+		addDep(i, op.PrefixOf)
+		if e := op.Expect; e != nil {
+			addDep(i, e.SameAs)
+			addDep(i, e.SameResultAs)
+			addDep(i, e.PrefixOf)
+			if e.C08 != nil {
+				for _, r := range e.C08.FiresLike {
+					addDep(i, r.Other)
+				}
+				for _, r := range e.C08.Implies {
+					addDep(i, r.Other)
+				}
+			}
+		}
+		for _, t := range op.Tasks {
+			collect(i, t)
+		}
+	}
+	for i, op := range c.Ops {
+		collect(i, op)
+		// a clock jump / reseed stays in front of the operation it preceded
+		if (op.Kind == "clock" || op.Kind == "reseed") && i+1 < n {
+			deps[i+1] = append(deps[i+1], i)
+		}
+	}
+	done := make([]bool, n)
+	var order []*Op
+	for len(order) < n {
+		pick := -1
+		for i := n - 1; i >= 0; i-- {
+			if done[i] {
+				continue
+			}
+			ok := true
+			for _, d := range deps[i] {
+				if !done[d] {
+					ok = false
+				}
+			}
+			if ok {
+				pick = i
+				break
+			}
+		}
+		if pick < 0 {
+			return c // cyclic expectations cannot occur; keep the original order if they do
+		}
+		done[pick] = true
+		order = append(order, c.Ops[pick])
+	}
+	c.Ops = nil
+	for _, op := range order {
+		if op.Kind != "freq" {
+			c.Ops = append(c.Ops, op)
+		}
+	}
+	return c
 }
